@@ -82,7 +82,11 @@ OpSetSilent(b) == Step("set_silent", <<b>>, b, r, b)                      \* lib
 \* "after_refused_print": earlier calls of libast_dprintf / print_error / print_warning were REFUSED because no program name was
 \* registered at that moment (the state a failed strdup inside libast_set_program_name leaves); the name has been registered
 \* again since.  S: a refused call leaves nothing behind - the later statement behaves as if it had never happened.
-Histories == {"clean", "after_failed_write", "in_atexit_of_fatal", "after_refused_print"}
+\* "after_same_statement": the SAME statement (same source line, same arguments) was executed immediately before in the same
+\* configuration and the process carried on.  S: the outcome is a function of the two levels and the silent flag - a statement
+\* that logged once logs again (no "repeated message" suppression, no per-site memory).  Only where the first execution does
+\* not end the process.
+Histories == {"clean", "after_failed_write", "in_atexit_of_fatal", "after_refused_print", "after_same_statement"}
 \* Type of the asserted / required expression.  S: ASSERT(x) / REQUIRE(x) test the TRUTH of x exactly as C's !(x) does, whatever
 \* its scalar type: a double of magnitude below 1, a 64-bit value whose low 32 bits are 0, a pointer, a bit-field, a _Bool.
 \* The outcome is that of the same statement with an int condition of the same truth value.
@@ -113,6 +117,7 @@ OpExecute(m, h, c, ty, wf) ==
     /\ (c = "alone" \/ (h = "clean" /\ m \notin Printers))
     /\ (ty = "int" \/ (m \in Typed /\ c = "alone" /\ h = "clean"))
     /\ (wf = "none" \/ (c = "alone" /\ h = "clean" /\ ty = "int" /\ ~silent))
+    /\ (h # "after_same_statement" \/ \A o \in Outcomes(d, r, silent, m) : o.ctl # "exits")
     /\ \E o \in Outcomes(d, r, silent, m) : \E of \in UnderFault(InContext(o, c), wf) :
           Step("execute", <<m, h, c, ty, wf>>, of, r, silent)
 
